@@ -1,12 +1,14 @@
 import Driver.Util
 import Driver.C13
 import Driver.C14
+import Driver.C12
 open Lean
 
 def dispatch (p : String) (inp obs : Json) : Drv.Res :=
   match p with
   | "C13" => Drv.c13 inp obs
   | "C14" => Drv.c14 inp obs
+  | "C12" => Drv.c12 inp obs
   | _ => { agree := false, specOk := false, why := s!"unknown property {p}" }
 
 def handleLine (line : String) : String :=
